@@ -177,6 +177,16 @@ proof fn lemma_occ_arr_mono(a: Seq<J>, s: Strat, pa: Seq<J>, ds: DS, off: int, i
     decreases n
 { if i < n { lemma_occ_arr_mono(a, s, pa, ds, off, i, (n - 1) as nat); } }
 
+proof fn lemma_is_view_members_intro(vm: Seq<(Seq<char>, J)>, m: Seq<(Seq<char>, J)>, s: Strat, ds: DS, off: int, dm: DM, n: nat)
+    requires n <= m.len(),
+        forall|i: int| 0 <= i < n ==> (if m_present(m, s, ds, off, dm, i) {
+                j_has(vm, (#[trigger] m[i]).0) && is_view(j_get(vm, m[i].0)->Some_0, m[i].1, m_sub(m, s, i), ds, m_off(m, s, off, i), dm)
+            } else { !j_has(vm, m[i].0) }),
+    ensures is_view_members(vm, m, s, ds, off, dm, n)
+    decreases n
+{
+    if n > 0 { lemma_is_view_members_intro(vm, m, s, ds, off, dm, (n - 1) as nat); let _ = m[n - 1]; }
+}
 // ---- the theorem, by structural induction on the claims ----
 proof fn thm_val(u: J, s: Strat, p: J, ds: DS, off: int, dm: DM, seen: SS)
     requires enc(u, s, p, ds, off), sep(u, s, p, ds, off), wf_j(u), !has_reserved(u), off >= 0, off + hcount(u, s) <= ds.len(),
@@ -191,7 +201,98 @@ proof fn thm_val(u: J, s: Strat, p: J, ds: DS, off: int, dm: DM, seen: SS)
             thm_arr(a, s, pa, ds, off, dm, seen, a.len());
             assert(pa.take(pa.len() as int) =~= pa);
         }
-        J::Obj(m) => { assume(false); }
+        J::Obj(m) => {
+            let pm = p->Obj_0;
+            let sdl = sd_strs(pm);
+            assert(obj_ctx(m, s, pm, ds, off, dm));
+            let om = occ_members(m, s, pm, ds, off, m.len());
+            assert(occ(u, s, p, ds, off) == jstrs(sdl).union(om));
+            thm_members(m, s, pm, ds, off, dm, seen, pm.len());
+            assert(pm.take(pm.len() as int) =~= pm);
+            let out0 = u_members(pm, dm, seen)->Ok_0;
+            let c1 = u_members(pm, dm, seen)->Ok_1;
+            let seen2 = seen.union(c1);
+            // c1 lies inside the visible members' regions
+            assert forall|x: Dig| c1.contains(x) implies om.contains(x) by {
+                let i = choose|i: int| 0 <= i < m.len() && !m_hid(m, s, i) && j_has(out0, (#[trigger] m[i]).0) && occ_member(m, s, pm, ds, off, i).contains(x);
+                lemma_occ_members_has(m, s, pm, ds, off, i, m.len());
+            }
+            assert forall|k: Seq<char>| #[trigger] j_has(out0, k) implies exists|i: int| 0 <= i < m.len() && (#[trigger] m[i]).0 == k && !m_hid(m, s, i) by {
+                let q = choose|q: int| 0 <= q < pm.len() && (#[trigger] pm[q]).0 == k;
+                let i = vis_idx(m, s, k);
+                assert(0 <= i < m.len() && m[i].0 == k && !m_hid(m, s, i));
+            }
+            assert forall|x: Dig| jstrs(sdl).contains(x) implies !seen2.contains(x) by { }
+            assert forall|i: int, x: Dig| 0 <= i < m.len() && m_hid(m, s, i) && #[trigger] occ_member(m, s, pm, ds, off, i).contains(x) implies !seen2.contains(x) by {
+                lemma_occ_members_has(m, s, pm, ds, off, i, m.len());
+                if c1.contains(x) {
+                    let i2 = choose|i2: int| 0 <= i2 < m.len() && !m_hid(m, s, i2) && j_has(out0, (#[trigger] m[i2]).0) && occ_member(m, s, pm, ds, off, i2).contains(x);
+                    lemma_sep_members_pair(m, s, pm, ds, off, m.len(), i, i2);
+                }
+            }
+            thm_digests(m, s, pm, ds, off, dm, seen2, out0, sdl.len());
+            assert(sdl.take(sdl.len() as int) =~= sdl);
+            let out2 = u_digests(sdl, dm, seen2, out0)->Ok_0;
+            let c2 = u_digests(sdl, dm, seen2, out0)->Ok_1;
+            let n = sdl.len() as int;
+            // the verifier's result for this object
+            let vm = out2;
+            assert(u_val(p, dm, seen) == UR::Ok(J::Obj(vm), (if j_get(pm, K_SD()) is Some { c1.union(c2) } else { c1 }))) by {
+                match j_get(pm, K_SD()) {
+                    Some(J::Arr(a)) => { assert(a == sdl); }
+                    Some(_) => { assert(false); }
+                    None => { assert(sdl.len() == 0); assert(sdl.take(0) =~= sdl); }
+                }
+            }
+            // consumed digests stay inside the region
+            assert forall|x: Dig| c2.contains(x) implies jstrs(sdl).union(om).contains(x) by {
+                if exists|q: int| 0 <= q < n && #[trigger] sdl[q] == J::Str(x) {
+                    let q = choose|q: int| 0 <= q < n && #[trigger] sdl[q] == J::Str(x);
+                    assert(sdl.contains(J::Str(x)));
+                    lemma_jstrs(sdl, x);
+                } else {
+                    let i = choose|i: int| #[trigger] matched(m, s, sdl, ds, off, dm, n, i) && occ_member(m, s, pm, ds, off, i).contains(x);
+                    lemma_occ_members_has(m, s, pm, ds, off, i, m.len());
+                }
+            }
+            // member by member: present iff visible or matched
+            assert forall|i: int| 0 <= i < m.len() implies (if m_present(m, s, ds, off, dm, i) {
+                    j_has(vm, (#[trigger] m[i]).0) && is_view(j_get(vm, m[i].0)->Some_0, m[i].1, m_sub(m, s, i), ds, m_off(m, s, off, i), dm)
+                } else { !j_has(vm, m[i].0) }) by {
+                lemma_enc_members_at(m, s, pm, sdl, ds, off, m.len(), i);
+                if !m_hid(m, s, i) {
+                    lemma_j_has_iff(pm, m[i].0);
+                    let q = choose|q: int| 0 <= q < pm.len() && #[trigger] pm[q].0 == m[i].0;
+                    lemma_entries_elem(m, i);
+                    lemma_consts();
+                    assert(pm[q].0 != K_SD());
+                    assert(j_has(out0, pm[q].0));
+                } else if dm.contains_key(m_dig(m, s, ds, off, i)) {
+                    assert(sdl.contains(J::Str(m_dig(m, s, ds, off, i))));
+                    let q = choose|q: int| 0 <= q < sdl.len() && sdl[q] == J::Str(m_dig(m, s, ds, off, i));
+                    assert(matched(m, s, sdl, ds, off, dm, n, i));
+                } else if j_has(vm, m[i].0) {
+                    if j_has(out0, m[i].0) {
+                        let i2 = choose|i2: int| 0 <= i2 < m.len() && (#[trigger] m[i2]).0 == m[i].0 && !m_hid(m, s, i2);
+                        if i2 < i { assert(m[i2].0 != m[i].0); } else if i < i2 { assert(m[i].0 != m[i2].0); }
+                    } else {
+                        let i2 = choose|i2: int| matched(m, s, sdl, ds, off, dm, n, i2) && (#[trigger] m[i2]).0 == m[i].0;
+                        if i2 < i { assert(m[i2].0 != m[i].0); } else if i < i2 { assert(m[i].0 != m[i2].0); }
+                    }
+                }
+            }
+            lemma_is_view_members_intro(vm, m, s, ds, off, dm, m.len());
+            assert forall|q: int| 0 <= q < vm.len() implies exists|i: int| 0 <= i < m.len() && #[trigger] m[i].0 == (#[trigger] vm[q]).0 by {
+                lemma_j_has_iff(vm, vm[q].0);
+                if j_has(out0, vm[q].0) {
+                    let i2 = choose|i2: int| 0 <= i2 < m.len() && (#[trigger] m[i2]).0 == vm[q].0 && !m_hid(m, s, i2);
+                    assert(m[i2].0 == vm[q].0);
+                } else {
+                    let i2 = choose|i2: int| matched(m, s, sdl, ds, off, dm, n, i2) && (#[trigger] m[i2]).0 == vm[q].0;
+                    assert(m[i2].0 == vm[q].0);
+                }
+            }
+        }
         _ => {}
     }
 }
